@@ -63,6 +63,14 @@ Section QueryAddr.
     | BX i body => rx_test (text_of body) (reach1 i v)
     | BCL lit o i => ctest i (mirror_op o) (qnum parse_float lit) v
     | BLL l ne i => if ne then negb (lit_test (litv_value l) (reach1 i v)) else lit_test (litv_value l) (reach1 i v)
+    | BRL j o i => match o with
+                   | OEq => peq_test i j root vals v
+                   | ONe => negb (peq_test i j root vals v)
+                   | _ => match num_of_entry (root_entry j root) with
+                          | Some f => entry_test (mirror_op o) f (reach1 i v)
+                          | None => false
+                          end
+                   end
     end.
   Definition dnf_test (root : value) (vals : list value) (d : list (list bq)) (v : value) : bool :=
     existsb (fun c => forallb (fun b => bq_test root vals b v) c) d.
@@ -76,12 +84,13 @@ Section QueryAddr.
     | TO l r => qt_test root vals l v || qt_test root vals r v
     end.
 
-  Lemma bq_ok_steps b : bq_ok b = true -> forallb rstep_ok (match b with BE i | BN i | BC i _ _ | BL i _ _ | BRE i | BRN i | BCR i _ _ | BPQ i _ _ | BX i _ | BCL _ _ i | BLL _ _ i => i end) = true.
+  Lemma bq_ok_steps b : bq_ok b = true -> forallb rstep_ok (match b with BE i | BN i | BC i _ _ | BL i _ _ | BRE i | BRN i | BCR i _ _ | BPQ i _ _ | BX i _ | BCL _ _ i | BLL _ _ i | BRL _ _ i => i end) = true.
   Proof.
-    destruct b as [i|i|i o lit|i ne l|j|j|i o j|i ne j|i body|lit o i|l ne i]; cbn [bq_ok]; intros H; try exact H.
+    destruct b as [i|i|i o lit|i ne l|j|j|i o j|i ne j|i body|lit o i|l ne i|j o i]; cbn [bq_ok]; intros H; try exact H.
     - apply andb_true_iff in H; destruct H as [H _]; apply andb_true_iff in H; exact (proj1 H).
     - apply andb_true_iff in H; destruct H as [H _]; apply andb_true_iff in H; exact (proj1 H).
     - apply andb_true_iff in H; destruct H as [H _]. apply andb_true_iff in H; destruct H as [H _]. apply andb_true_iff in H; exact (proj1 H).
+    - apply andb_true_iff in H; destruct H as [H _]; apply andb_true_iff in H; exact (proj1 H).
     - apply andb_true_iff in H; destruct H as [H _]; apply andb_true_iff in H; exact (proj1 H).
     - apply andb_true_iff in H; destruct H as [H _]; apply andb_true_iff in H; exact (proj1 H).
     - apply andb_true_iff in H; destruct H as [H _]; apply andb_true_iff in H; exact (proj1 H).
@@ -326,7 +335,7 @@ Section QueryAddr.
   Lemma holds_bq b root vals : bq_ok b = true -> small root -> Forall small vals ->
     holds (bq_query cfg parse_float b) root vals = map (bq_test root vals b) vals.
   Proof.
-    intros Hb Hr Hv. pose proof (bq_ok_steps b Hb) as Hs. destruct b as [i|i|i o lit|i ne l|j|j|i o j|i ne j|i body|lit o i|l ne i]; cbn [bq_query bq_test].
+    intros Hb Hr Hv. pose proof (bq_ok_steps b Hb) as Hs. destruct b as [i|i|i o lit|i ne l|j|j|i o j|i ne j|i body|lit o i|l ne i|j o i]; cbn [bq_query bq_test].
     - apply (holds_exists cfg ffun afun regex_match i root vals Hs Hv).
     - change (holds (QNot ?q) root vals) with (map negb (holds q root vals)).
       rewrite (holds_exists cfg ffun afun regex_match i root vals Hs Hv), map_map. reflexivity.
@@ -348,6 +357,14 @@ Section QueryAddr.
     - destruct ne.
       + change (holds (QNot ?q) root vals) with (map negb (holds q root vals)). rewrite (holds_lit_cmp i l root vals Hs Hv), map_map. reflexivity.
       + apply (holds_lit_cmp i l root vals Hs Hv).
+    - cbn [bq_ok] in Hb. apply andb_true_iff in Hb. destruct Hb as [_ Hj]. apply andb_true_iff in Hj. destruct Hj as [Hj _].
+      cbv zeta. destruct o; cbn [mirror_op].
+      + apply (holds_root_peq i j root vals Hs Hj Hr Hv).
+      + change (holds (QNot ?q) root vals) with (map negb (holds q root vals)). rewrite (holds_root_peq i j root vals Hs Hj Hr Hv), map_map. reflexivity.
+      + apply (holds_root_cmp i OGt j root vals Hs Hj eq_refl Hr Hv).
+      + apply (holds_root_cmp i OGe j root vals Hs Hj eq_refl Hr Hv).
+      + apply (holds_root_cmp i OLt j root vals Hs Hj eq_refl Hr Hv).
+      + apply (holds_root_cmp i OLe j root vals Hs Hj eq_refl Hr Hv).
   Qed.
 
   Lemma holds_and_fold bs : forall q0 h0 root vals, forallb bq_ok bs = true -> small root -> Forall small vals ->
